@@ -268,15 +268,38 @@ class StmtMixin:
     def s_While(self, st):
         if st.orelse:
             raise Unsupported('while/else')
-        ordn = self.next_loop_ord()
+        ordn = self.loop_ordinal(st)
         self.loop(st, ordn, kind='while')
 
     def s_For(self, st):
         if st.orelse:
             raise Unsupported('for/else')
-        ordn = self.next_loop_ord()
+        ordn = self.loop_ordinal(st)
         it = self.eval(st.iter)
         self.loop(st, ordn, kind='for', it=it)
+
+    def loop_ordinal(self, st):
+        """Ordinal of a loop statement among the loops of its function, in source order."""
+        fi = self.frame.fi
+        if fi is None:
+            return self.next_loop_ord()
+        cache = getattr(fi, '_loop_ords', None)
+        if cache is None:
+            cache = {}
+
+            def visit(node):
+                for child in ast.iter_child_nodes(node):
+                    if isinstance(child, (ast.FunctionDef, ast.Lambda, ast.ListComp, ast.GeneratorExp, ast.DictComp,
+                                          ast.SetComp)):
+                        continue
+                    if isinstance(child, (ast.For, ast.While)):
+                        cache[id(child)] = len(cache)
+                    visit(child)
+            visit(fi.node)
+            fi._loop_ords = cache
+        if id(st) not in cache:
+            return self.next_loop_ord()
+        return cache[id(st)]
 
     def next_loop_ord(self):
         fr = self.frame
@@ -316,6 +339,17 @@ class StmtMixin:
                 val = self.dict_get(r0, kv)
                 return val if kind == 'values' else VTuple([kv, val])
             return dict(start=z3.IntVal(0), n=lambda: n, elem=elem, dictref=ref)
+        if isinstance(it, VRef) and it.typ == ty.ANY:
+            # iterator protocol on an opaque value (assumed): TypeError iff not iterable, else its items in order
+            fi = z3.Function('iterable', I, B)
+            fitems = z3.Function('items_of', I, I)
+            self.used_assumption('iter(x) on an opaque value raises TypeError at once iff x is not iterable; a '
+                                 're-iterable collection yields the same items each time (items_of)')
+            if not self.branch(fi(it.term)):
+                raise PyRaise('TypeError')
+            lst = VRef(fitems(it.term), ty.parse('list[any]'), it.st)
+            self.fact(z3.And(lst.term > 0, lst.term < self.arr('alloc')))
+            return self.iter_model(lst)
         h = self.iter_hooks.get(getattr(it, 'ext_kind', None))
         if h is not None:
             return h(self, it)
@@ -443,8 +477,13 @@ class StmtMixin:
 
         def body_fn():
             return VTuple([VBool(True), self.eval(e.elt)])
+        # the outermost iterable is evaluated in forking mode: iterating a non-iterable raises TypeError
+        it0 = self.eval(gens[0][1])
+        im0 = self.iter_model(it0)
+        if im0 is None:
+            raise Unsupported('comprehension over a tuple')
         return self.enumeration_law([(a, b) for a, b, _ in gens], body_fn, None, ifs=[c for _, _, c in gens],
-                                    result_type=t)
+                                    result_type=t, first_iter=im0)
 
     def e_GeneratorExp(self, e):
         if self.spec_mode:
@@ -476,6 +515,7 @@ class StmtMixin:
             for k, (target, iter_e) in enumerate(gens):
                 if k == 0 and first_iter is not None:
                     im = first_iter
+                    self._last_im = im
                 else:
                     itv = self.eval_pure(lambda ie=iter_e: self.eval(ie))
                     im = self.iter_model(itv)
